@@ -169,6 +169,17 @@ theorem packet_layer_eq_direct_loopback (old : Loopback) (d : GSlice) :
     · rw [if_neg hp, if_neg hp]
       exact ⟨rfl, Or.inr ⟨rfl, rfl⟩⟩
 
+set_option maxRecDepth 20000 in
+/-- `Loopback.NextLayerType` / `ProtocolFamily.Decode` over the shipped table, with the keys taken from
+    the constants REGENERATED from enums.go on every run: exactly the five known families have a
+    decoder; IPv4 for PF 2, IPv6 for the four IPv6 numbers; every other family ends the packet with
+    an error from `NextDecoder` (and `NextLayerType` = LayerTypeZero stops the parser). -/
+theorem loopback_next_layer_table :
+    (List.range 256).filter pfKnown = [2, 10, 24, 28, 30] ∧
+    pfLayerType 2 = LayerTypeIPv4 ∧ pfLayerType 10 = LayerTypeIPv6 ∧ pfLayerType 24 = LayerTypeIPv6 ∧
+    pfLayerType 28 = LayerTypeIPv6 ∧ pfLayerType 30 = LayerTypeIPv6 ∧
+    (∀ f, f < 256 → pfKnown f = false → pfLayerType f = LayerTypeZero) := by decide
+
 /-! ## ERSPAN II -/
 
 /-- A successful decode is a function of the visible input bytes alone. -/
